@@ -17,7 +17,8 @@ Directives (one per line, `//@ ` prefix; payload = the following non-directive l
   //@   spec                                            payload: requires/ensures/decreases
   //@   loop "<header text>" [#n] [iter <name>]         E5; payload: invariant/decreases
   //@   closure "<param text>" [#n] [as "<new params>"] [ret <type>]   E6
-  //@   insert before-stmt|after-stmt|before-text|after-text|body-start "<anchor>" [#n]   E7; payload: ghost code
+  //@   insert before-stmt|after-stmt|before-text|after-text|body-start|body-end "<anchor>" [#n]   E7; payload: ghost code
+  //@   insert-each ... [optional]: every occurrence (identifier anchors match whole words); `optional` tolerates zero occurrences
   //@   rewrite <rule> "<regex>" => "<replacement>" [xN]    E8/E11/E12 (rule named, counted)
   //@   lift "<anchor>" [#n] fn <signature text>        E9: body of the block opened after the anchor becomes a fn
   //@   rename <newname>                                item is emitted under another name (struct/fn)
@@ -629,9 +630,10 @@ def weave_extract(ub, ex, rf, repo_root):
                             break
                         # skip matches inside comments
                         if m[p0] == code[p0] or code[p0].isspace():
-                            occs.append(p0)
+                            if not (anchor.isidentifier() and ((p0 > 0 and (hay[p0 - 1].isalnum() or hay[p0 - 1] == '_')) or (p0 + len(anchor) < len(hay) and (hay[p0 + len(anchor)].isalnum() or hay[p0 + len(anchor)] == '_')))):
+                                occs.append(p0)
                         st = p0 + 1
-                    if not occs:
+                    if not occs and 'optional' not in rest:
                         raise WeaveError('lost anchor: %s insert-each anchor %r' % (alias, anchor))
                 else:
                     occs = [nth_occurrence(hay, anchor, n, '%s insert anchor' % alias)]
